@@ -463,6 +463,34 @@ impl Prop for C01 {
                 out.distinct(fnv_str(&["d", pat, &opts.to_string()]));
             }
         }
+        // ---- (d2) suffix chains: every key of the suffix table of one or two letters repeated to 64 (quick) / 96 (thorough)
+        // characters, with suggestions on (a word that can be cut into base + suffix in several ways at every position is
+        // where the candidate search and the learned-choice lookup would blow up)
+        {
+            let mut sfx: Vec<String> = std::fs::read_to_string(format!("{REPO}/data/suffix.json"))
+                .ok()
+                .and_then(|s| serde_json::from_str::<std::collections::HashMap<String, String>>(&s).ok())
+                .map(|m| m.into_keys().filter(|k| k.len() <= 2 && k.chars().all(|c| c.is_ascii_lowercase())).collect())
+                .unwrap_or_default();
+            sfx.sort();
+            out.max("suffix_keys_chained", sfx.len() as u64);
+            for (pi, pat) in sfx.iter().enumerate() {
+                if !env.mine(pi + 31) {
+                    continue;
+                }
+                let target = env.tier.pick(64, 96);
+                let spec = CfgSpec::new(Lay::Phonetic, O_PSUGG);
+                let Ok(mut ex) = Exec::new(spec, &root) else { continue };
+                t.contexts += 1;
+                let chars: Vec<char> = pat.chars().collect();
+                let mut evs: Vec<Ev> = (0..target).map(|i| Ev::Key(kc(chars[i % chars.len()]), 0, 0xFF)).collect();
+                evs.push(Ev::Bs);
+                evs.push(Ev::Commit(usize::MAX));
+                out.begin_case(|| json!({"cfg": spec.to_json(), "long_composition": {"pattern": pat, "length": target}}));
+                run_events(&mut ex, &nofiles, &evs, BUDGET_MS, out, &mut t);
+                out.distinct(fnv_str(&["d2", pat]));
+            }
+        }
         if thorough {
             set_call_budget_ms(STRESS_BUDGET_MS + 10_000);
             for (pi, pat) in ["ngkkh", "k", "1", "."].iter().enumerate() {
